@@ -288,6 +288,11 @@ func (x *Exec) vxIntrinsic(fn *ssa.Function, short string, args []Value, g *Term
 		return c.Bool(ok && t.IsConst())
 	case "vxSymbolic":
 		return c.True
+	case "vxTier":
+		if x.tier == "thorough" {
+			return c.Const(64, 1)
+		}
+		return c.Const(64, 0)
 	case "vxHavocBig":
 		// vxHavocBig(name string, p *[N]T) — fills a big array with fresh SMT arrays
 		nm := x.knownStr(args[0], short)
